@@ -2,7 +2,7 @@
 import os
 import vlib, engine_common as ec
 
-TB = ["Print Assumptions: all eight theorems of Properties/C07.v closed under the global context",
+TB = ["Print Assumptions: all nine theorems of Properties/C07.v closed under the global context",
       "core fragment: restart = reset of volatile fields; CInv mentions persisted columns only; C07_core_no_reexecution. Partial: that the store holds exactly the model's columns after a clean shutdown (serialisation + write-behind + caches of capacity 1..64 + grouping of batches) is validated by histories with restarts at random positions on the db-backed engine compared with the model and judged by the oracles (answers; no execution of a query that was up to date), not proved",
       ] + ec.ENGINE_TB
 
